@@ -204,6 +204,16 @@ def check_events(rep, ix):
     seeks = [c for c in common.calls_in(f) if isinstance(c.func, ast.Attribute) and c.func.attr in ('seekLr', 'seek', 'rewind', 'seekCurrentLrStart')]
     ok = len(seeks) == 1 and _n(seeks[0]) == f'{fl}.seekLr({siz})' and f'{fl}.seekLr({siz})' in acts.get('EVENT_SEEK_LR', [])
     rep.ob('R-C06-LOCAL', site, 'the only reposition is under the seek event, to the event\'s record position', ok, found=';'.join(_n(s) for s in seeks), node=f, module=m)
+    # ... and it is unconditional there: where the file stands after an earlier load says nothing about the read position
+    # inside the record (tellLr() is the start of the current record), so the seek may not be skipped
+    if seeks:
+        g0 = cfgmod.CFG(f)
+        st = common.stmt_containing(seeks[0])
+        deps = [b for b, lab in g0.control_deps(st) if isinstance(b, ast.If)]
+        inner = deps[-1] if deps else None
+        ok = inner is not None and 'EVENT_SEEK_LR' in _n(inner.test) and any(st is x for x in inner.body)
+        rep.ob('R-C06-LOCAL', site, 'every seek event repositions the file (the seek is not conditional on the file position)', ok,
+               found=_n(inner.test) if inner is not None else 'no guard', required='seekLr directly under `ty == EVENT_SEEK_LR`', node=seeks[0], module=m)
     ok = f'{fl}.readLrBytes(LogiRec.LR_HEADER_LENGTH)' in acts.get('EVENT_SEEK_LR', [])
     rep.ob('R-C06-LOCAL', site, 'after a seek the logical record header is consumed and its type checked', ok and any('dataType' in _n(n) for n in walk_no_nested(lp) if isinstance(n, ast.If)), node=lp, module=m)
     gfe = ix.get_func(LP, 'LogPass._genFrameSetEvents')
@@ -287,6 +297,29 @@ def check_rc(rep, ix):
     rep.ob('R-C06-RC', f'{LR}:STRUCT_LR_HEAD', 'logical record header = 2 bytes (type, attributes)', lh == 2 and isinstance(sh, StructVal) and sh.size == 2, found=f'{lh} {sh}', module=ix.module(LR))
 
 
+def check_spacing(rep, ix):
+    """Implied X of an indirect-X log: the frame spacing used for extrapolation has the magnitude of the declared spacing and
+    the sign of the log direction alone (a negative declared spacing on a down log must not run X backwards)."""
+    m = ix.module(FS)
+    f = ix.get_func(FS, 'FrameSet.__init__')
+    site = f'{FS}:FrameSet.__init__'
+    rep.fn(site)
+    g = cfgmod.CFG(f)
+    asg = [s for s in g.stmts() if isinstance(s, ast.Assign) and any(_n(t) == 'self._frameSpacing' for t in s.targets)]
+    raw = [s for s in asg if 'abs(' not in _n(s.value) and _n(s.value) != 'None']
+    mag = [s for s in asg if _n(s.value) == 'abs(self._frameSpacing)']
+    flip = [s for s in asg if _n(s.value) in ('-1*abs(self._frameSpacing)', '-abs(self._frameSpacing)', 'abs(self._frameSpacing)*-1')]
+    ok = len(raw) >= 1 and len(mag) == 1 and all(g.must_pass(r, g.EXIT, {mag[0]}, skip_exc=True) for r in raw)
+    rep.ob('R-C06-LOCAL', site, 'the declared frame spacing is reduced to its magnitude on every path (its sign carries no information)', ok,
+           found=f'{len(raw)} raw assignment(s), {len(mag)} abs()', required='self._frameSpacing = abs(self._frameSpacing) after the declared / converted value', node=f, module=m)
+    ok = len(flip) == 1 and bool(mag)
+    if ok:
+        deps = [b for b, lab in g.control_deps(flip[0]) if isinstance(b, ast.If) and lab == 'true']
+        dom = g.dominators()
+        ok = bool(deps) and _n(deps[-1].test) == 'self._xAxisDecl.isLogUp' and mag[0] in dom.get(flip[0], ())
+    rep.ob('R-C06-LOCAL', site, 'the spacing is negative exactly for an up log', ok, node=f, module=m)
+
+
 def check_rle(rep, ix):
     from .. import alg
     m = ix.module(RL)
@@ -324,6 +357,7 @@ def check_rle(rep, ix):
 
 
 def run(rep, ix, tier):
+    check_spacing(rep, ix)
     check_dispatch(rep, ix)
     check_events(rep, ix)
     check_channels(rep, ix)
@@ -333,4 +367,4 @@ def run(rep, ix, tier):
     rep.floor('R-C06-EVENTS', 8)
     rep.floor('R-C06-CHANNELS', 8)
     rep.floor('R-C06-RC', 20)
-    rep.floor('R-C06-LOCAL', 7)
+    rep.floor('R-C06-LOCAL', 10)
